@@ -1,13 +1,170 @@
-"""C16 -- placeholder until the check is built"""
+"""C16 -- PEATCLSM functions follow the published formulation"""
+
+import numpy as np
+
+from .. import core, gen_params, oracle_hydraulics as oh
+
 PROPERTY = 'C16'
 LEVEL = 'exploration'
-SHARDS = {'quick': 1, 'thorough': 1}
-RULE = 'not built yet'
+SHARDS = {'quick': 4, 'thorough': 16}
+RULE = (
+    'G-params (sd, theta_s, b, psi_s) inside the calibration bounds written to the PEST control file, their corners, '
+    'and the published set, built by the real create_specific_yield_function; specific yield evaluated at the 201 '
+    'tabulated levels (oracle: vectorised discretisation of the Dettmann-Bechtold profile with erfc, 1e-10 relative), '
+    'at midpoints (linear) and beyond both ends (constant); for the published set additionally against the '
+    'line-by-line transcription of the shipped R script (200 soil layers, np.allclose as the repository\'s own test). '
+    'Transmissivity for (Ksmacz0 in 1e-4..1e5, alpha in (1, 20], zeta_max) on scalars and arrays against '
+    'Ksmacz0 (zeta_max - zeta)^(1-alpha) / (100 (alpha - 1)) (1e-12 relative) and refusal above zeta_max.  '
+    'Non-trivial: parameter set differing from the published one in >= 2 parameters; distinct sets counted.'
+)
+ASSUMPTIONS = [
+    'Rscript is not installed: the R reference is represented by a transcription (layer count 200 as in `for (j in 1:200)`), part of the trusted base',
+    'the general clause uses the 201-layer discretisation the Python code documents; for the published set the two agree to 1e-11',
+]
+SIZES = {'quick': dict(sy=36, T=1500), 'thorough': dict(sy=1600, T=100000)}
+REQUIRED = {
+    tier: {
+        'sy-tables-checked': 20,
+        'sy-published-set-vs-R-transcription': 1,
+        'sy-corner-sets': 2,
+        'sy-interpolation-points-checked': 2000,
+        'T-values-checked': 3000,
+        'T-refusals-above-ceiling': 200,
+        'T-array-calls': 200,
+    }
+    for tier in ('quick', 'thorough')
+}
+MIN_NONTRIVIAL = {'quick': 20, 'thorough': 1000}
+
+
+def check_sy(ctx, rng, params, published=False):
+    import spowtd.specific_yield as sy_mod
+
+    rec = ctx.rec
+    rec.case()
+    case = {'kind': 'peatclsm_sy', 'params': params}
+    try:
+        sy = sy_mod.create_specific_yield_function(dict(params))
+    except Exception as exc:  # pylint: disable=broad-except
+        desc = core.describe_exception(exc)
+        if desc['origin'] == 'harness':
+            rec.inconclusive_because('harness exception: {}'.format(desc))
+        else:
+            rec.violation('construction-raises:' + desc['type'], {'exception': desc, 'params': params}, case, 'peatclsm_sy')
+        return
+    p = {k: params[k] for k in ('sd', 'theta_s', 'b', 'psi_s')}
+    levels, ref = oh.peatclsm_sy_profile(**p, layers=201)
+    got = np.asarray(sy(levels), dtype=float)
+    scale = max(1e-6, float(np.max(np.abs(ref))))
+    err = float(np.max(np.abs(got - ref)))
+    rec.note_max('max |sy - profile| / scale at tabulated levels', err / scale)
+    if not np.all(np.isfinite(got)) or err > 1e-10 * scale:
+        i = int(np.argmax(np.abs(got - ref)))
+        rec.violation('tabulated-value-differs-from-the-discretised-profile',
+                      {'params': params, 'level_mm': float(levels[i]), 'got': float(got[i]), 'expected': float(ref[i])}, case, 'peatclsm_sy')
+        return
+    rec.hit('sy-tables-checked')
+    # linear in between, constant beyond
+    mids = 0.5 * (levels[:-1] + levels[1:])
+    q = levels[:-1] + 0.25 * (levels[1:] - levels[:-1])
+    for pts, exp in ((mids, 0.5 * (ref[:-1] + ref[1:])), (q, 0.75 * ref[:-1] + 0.25 * ref[1:])):
+        g = np.asarray(sy(pts), dtype=float)
+        if float(np.max(np.abs(g - exp))) > 1e-9 * scale:
+            i = int(np.argmax(np.abs(g - exp)))
+            rec.violation('not-linear-between-tabulated-levels', {'params': params, 'level_mm': float(pts[i]), 'got': float(g[i]), 'expected': float(exp[i])}, case, 'peatclsm_sy')
+            return
+        rec.hit('sy-interpolation-points-checked', len(pts))
+    for x, exp in ((levels[0] - 500.0, ref[0]), (levels[0] - 1e-3, ref[0]), (levels[-1] + 1e-3, ref[-1]), (levels[-1] + 2000.0, ref[-1])):
+        v = float(sy(x))
+        if abs(v - exp) > 1e-9 * scale:
+            rec.violation('not-constant-beyond-the-table', {'params': params, 'level_mm': x, 'got': v, 'expected': float(exp)}, case, 'peatclsm_sy')
+            return
+        rec.hit('sy-extrapolation-points-checked')
+    if published:
+        _, ref_r = oh.peatclsm_sy_profile(**p, layers=200)
+        if not np.allclose(got, ref_r):
+            rec.violation('published-set-differs-from-the-R-reference', {'max_abs_difference': float(np.max(np.abs(got - ref_r)))}, case, 'peatclsm_sy')
+            return
+        rec.note_max('published set: max |sy - R transcription|', float(np.max(np.abs(got - ref_r))))
+        rec.hit('sy-published-set-vs-R-transcription')
+    ndiff = sum(1 for k in p if p[k] != gen_params.PUBLISHED_SY[k])
+    if ndiff >= 2:
+        rec.mark_nontrivial(core.digest(p))
+    if p['sd'] in (1e-3, 2.0) and p['b'] in (0.01, 20.0):
+        rec.hit('sy-corner-sets')
+    if len(rec.samples) < 3:
+        rec.sample({'params': p, 'levels_mm': levels[98:103].tolist(), 'sy': got[98:103].tolist(), 'profile': ref[98:103].tolist()})
+
+
+def check_T(ctx, rng, params):
+    import spowtd.transmissivity as t_mod
+
+    rec = ctx.rec
+    rec.case()
+    case = {'kind': 'peatclsm_T', 'params': params}
+    T = t_mod.create_transmissivity_function(dict(params))
+    zmax_mm = params['zeta_max_cm'] * 10
+    n = rng.randint(1, 6)
+    levels = [zmax_mm - rng.choice([rng.uniform(0.01, 2000), rng.uniform(1e-6, 1), 10.0, 1000.0]) for _ in range(n)]
+    form = rng.choice(['scalar', 'array', 'list'])
+    try:
+        if form == 'scalar':
+            got = np.array([float(T(z)) for z in levels])
+        elif form == 'array':
+            got = np.asarray(T(np.array(levels)), dtype=float)
+            rec.hit('T-array-calls')
+        else:
+            got = np.asarray(T(list(levels)), dtype=float)
+            rec.hit('T-array-calls')
+    except Exception as exc:  # pylint: disable=broad-except
+        desc = core.describe_exception(exc)
+        if desc['origin'] == 'harness':
+            rec.inconclusive_because('harness exception: {}'.format(desc))
+        else:
+            rec.violation('admissible-level-refused:' + desc['type'], {'exception': desc, 'levels': levels, 'params': params}, dict(case, levels=levels), 'peatclsm_T')
+        return
+    ref = oh.peatclsm_transmissivity(levels, params['Ksmacz0'], params['alpha'], params['zeta_max_cm'])
+    ok = np.all(np.abs(got - ref) <= 1e-12 * np.abs(ref))
+    if not ok:
+        rec.violation('differs-from-the-published-formula', {'params': params, 'levels_mm': levels, 'got': got.tolist(), 'expected': ref.tolist()}, dict(case, levels=levels), 'peatclsm_T')
+        return
+    rec.hit('T-values-checked', len(levels))
+    rec.mark_nontrivial(core.digest(params))
+    # refused above the ceiling (also when only one element of an array is above)
+    above = zmax_mm + rng.choice([1e-6 * max(1.0, abs(zmax_mm)), 0.5, 10.0, 1e4])
+    arg = above if rng.random() < 0.5 else np.array(levels + [above])
+    try:
+        v = T(arg)
+    except ValueError:
+        rec.hit('T-refusals-above-ceiling')
+    except Exception as exc:  # pylint: disable=broad-except
+        rec.violation('level-above-ceiling-not-refused-with-an-error-value:' + type(exc).__name__, {'params': params, 'level': above}, dict(case, levels=[above]), 'peatclsm_T')
+    else:
+        rec.violation('level-above-ceiling-accepted', {'params': params, 'level_mm': above, 'returned': np.asarray(v).tolist()}, dict(case, levels=[above]), 'peatclsm_T')
 
 
 def run(ctx):
-    ctx.rec.inconclusive_because('check not built yet')
+    s = SIZES[ctx.tier]
+    rng = ctx.rng('sy')
+    n = ctx.share(s['sy'])
+    for i in range(n):
+        if i == 0:
+            check_sy(ctx, rng, dict(gen_params.PUBLISHED_SY), published=True)
+        elif i in (1, 2):
+            p = gen_params.peatclsm_sy(rng)
+            p.update(sd=[1e-3, 2.0][i - 1], b=[0.01, 20.0][i - 1])
+            check_sy(ctx, rng, p)
+        else:
+            check_sy(ctx, rng, gen_params.peatclsm_sy(rng))
+    rng = ctx.rng('T')
+    for i in range(ctx.share(s['T'])):
+        check_T(ctx, rng, dict(gen_params.PUBLISHED_T) if i == 0 else gen_params.peatclsm_T(rng))
 
 
 def replay(ctx, case, module=None):
-    ctx.rec.inconclusive_because('check not built yet')
+    rng = core.make_rng('replay')
+    if case['kind'] == 'peatclsm_sy':
+        check_sy(ctx, rng, case['params'], published=case['params'] == gen_params.PUBLISHED_SY)
+    else:
+        for _ in range(20):
+            check_T(ctx, rng, case['params'])
